@@ -19,7 +19,7 @@ func init() {
 	register(&mc.Check{
 		ID:    "C03",
 		Level: "model_checking",
-		Rule: "all route tables of 0..3 INCMP lines over targets {aa,bb,_,<,.} x selectors {1,2,*} (3616 tables) placed after the HALT of the entry node and of a depth-1 node, x all input histories up to depth 3 over {1,2,3,''} through engine.DefaultEngine (long-lived; persisted on mem in the thorough tier); " +
+		Rule: "all route tables of 0..3 INCMP lines over targets {aa,bb,_,<,.,ee (a terminal node without HALT)} x selectors {1,2,*} (6175 tables) placed after the HALT of the entry node and of a depth-1 node, x all input histories up to depth 3 over {1,2,3,''} through engine.DefaultEngine (long-lived; persisted on mem in the thorough tier); " +
 			"reference = first-match routing rule + navigation table, compared after every request on position, the sequence of code fetches (exactly one move per request) and the invalid-input page; states = distinct (table, position) pairs; non-trivial = requests where a later line would also have matched",
 		Assumptions: []string{"'_' at the entry node is only required to report an error", "when a failing '<' line is followed by another line that also matches, either the catch node or that later line's move is accepted (the statement is ambiguous there)", "unmatched input at the catch node itself is not constrained"},
 		Run:         c03Run,
@@ -40,7 +40,7 @@ type c03Witness struct {
 	Inputs []string  `json:"inputs"`
 }
 
-var c03Targets = []string{"aa", "bb", "_", "<", "."}
+var c03Targets = []string{"aa", "bb", "_", "<", ".", "ee"}
 var c03Sels = []string{"1", "2", "*"}
 var c03Inputs = []string{"1", "2", "3", ""}
 
@@ -72,6 +72,7 @@ func c03Code(t []c03Line) []codec.Ins {
 	return code
 }
 
+// "ee" is a terminal node: its code runs out without a HALT (a farewell page)
 var c03Fixed = map[string][]c03Line{
 	"aa":     {{"_", "1"}, {"bb", "2"}},
 	"bb":     {{"_", "1"}, {"^", "2"}, {"aa", "2"}},
@@ -93,6 +94,7 @@ func c03App(t []c03Line, depth int) (*app.App, map[string][]c03Line) {
 	for n, tb := range tables {
 		a.Node(n, "at "+n, c03Code(tb)...)
 	}
+	a.Node("ee", "at ee", codec.Ins{Op: codec.MOUT, Sym: "bye", Sel: "9"})
 	return a, tables
 }
 
